@@ -162,7 +162,7 @@ class Shadow:
         n = len(self.kind)
         if t == "N":
             return n < 12
-        if any(isinstance(x, int) and not 0 <= x < n for x in op[1:] if not isinstance(x, (str, list))):
+        if not 0 <= op[1] < n or (t == "S" and not 0 <= op[3] < n):
             return False
         if t == "S":
             r = self.set_target(op[1], bytes.fromhex(op[2]), op[3])
@@ -488,7 +488,7 @@ def impl(c):
                 if h != want:
                     bad.append("op %d %s: node %d reports hash %s but its current structure hashes to %s"
                                % (idx, op, op[1], hexs(h), hexs(want)))
-                tok = "x" + hexs(h if generic and not isinstance(nd, (from_disk.Directory, from_disk.Content)) else scratch_m(nd))
+                tok = "x" + hexs(h if generic else scratch_m(nd))
             elif t in ("E", "M"):
                 nd = nodes[op[1]]
                 if t == "E":
@@ -522,6 +522,7 @@ def impl(c):
                 if quiet.get(op[1]) == "reset":
                     if hs != {scratch_m(r) for r in reach_impl(nd)}:
                         bad.append("op %d %s: collect after reset_collect did not report every node" % (idx, op))
+                quiet = {k: v for k, v in quiet.items() if v == "collect"}
                 quiet[op[1]] = "collect"
                 tok = "n" + ",".join(sorted(hexs(h) for h in hs))
             elif t == "R":
@@ -532,9 +533,8 @@ def impl(c):
                 tok = "?"
         except Exception as e:   # noqa
             tok = err_tok(e)
-        if t in MUT or t == "F" or (t == "R"):
-            if t != "R":
-                quiet = {}
+        if t in MUT or t == "F":
+            quiet = {}
         outs.append(tok)
         # the property, without touching any cache: a set private hash must be the from-scratch hash
         for i, nd in enumerate(nodes):
